@@ -1000,6 +1000,9 @@ class TemplateModel(object):
 
     def get_features(self, spike_ids, channel_ids):
         """Return sparse features for given spikes."""
+        # NOTE: signed integer ids (an empty list or uint64 ids would make the set operations
+        # with the table of stored spike ids return floating point indices).
+        spike_ids = np.asarray(spike_ids, dtype=np.int64)
         sf = self.sparse_features
         if sf is None and self.spike_waveforms is not None:
             ns = len(spike_ids)
@@ -1031,11 +1034,12 @@ class TemplateModel(object):
         features[:] = np.nan
 
         if sf.rows is not None:
-            s = np.intersect1d(spike_ids, sf.rows)
+            sf_rows = np.asarray(sf.rows, dtype=np.int64)
+            s = np.intersect1d(spike_ids, sf_rows)
             # Relative indices of the spikes in the self.features_spike_ids
             # array, necessary to load features from all_features which only
             # contains the subset of the spikes.
-            rows = _index_of(s, sf.rows)
+            rows = _index_of(s, sf_rows)
             # Relative indices of the non-null rows in the output features
             # array.
             rows_out = _index_of(s, spike_ids)
@@ -1060,14 +1064,16 @@ class TemplateModel(object):
         if tf is None:
             return
         _, n_templates_loc = tf.data.shape
+        spike_ids = np.asarray(spike_ids, dtype=np.int64)
         ns = len(spike_ids)
 
         if tf.rows is not None:
-            s = np.intersect1d(spike_ids, tf.rows)
+            tf_rows = np.asarray(tf.rows, dtype=np.int64)
+            s = np.intersect1d(spike_ids, tf_rows)
             # Relative indices of the spikes in the self.features_spike_ids
             # array, necessary to load features from all_features which only
             # contains the subset of the spikes.
-            rows = _index_of(s, tf.rows)
+            rows = _index_of(s, tf_rows)
             # Relative indices of the non-null rows in the output array.
             rows_out = _index_of(s, spike_ids)
             template_features = np.empty((ns, n_templates_loc))
